@@ -19,7 +19,7 @@ func regexToSMT(pat string) (string, bool) {
 	if err != nil {
 		return "", false
 	}
-	re = re.Simplify()
+	// no Simplify(): it expands {m,n} into nested optionals, which the solvers handle far worse than re.loop
 	subs := []*syntax.Regexp{re}
 	if re.Op == syntax.OpConcat {
 		subs = re.Sub
